@@ -84,8 +84,8 @@ func generate(r *simkit.Rand, prop, tier string) *simkit.Plan {
 	if !recurring {
 		p.Knobs["monotone"] = 1
 	}
-	ops := []string{"block", "abort", "finalize", "rollback", "blockpr", "unblockpr", "restart", "snapshot", "checkpoint", "release", "tick", "emptyblock"}
-	w := []int{r.Range(6, 12), r.Range(0, 2), r.Range(3, 9), r.Range(0, 3), r.Range(0, 2), r.Range(0, 2), r.Range(0, 1), 0, 0, 0, 0, r.Range(0, 2)}
+	ops := []string{"block", "abort", "finalize", "rollback", "blockpr", "unblockpr", "restart", "snapshot", "checkpoint", "release", "tick", "emptyblock", "stalesnapshot"}
+	w := []int{r.Range(6, 12), r.Range(0, 2), r.Range(3, 9), r.Range(0, 3), r.Range(0, 2), r.Range(0, 2), r.Range(0, 1), 0, 0, 0, 0, r.Range(0, 2), 0}
 	withWorkers := prop == "C10"
 	if prop == "C09" && p.Arm == "monotone" && r.Chance(0.3) {
 		// C09 next to real snapshot / checkpoint workers (they block pruning and share the hashes holder with commits)
@@ -123,13 +123,32 @@ func generate(r *simkit.Rand, prop, tier string) *simkit.Plan {
 		w[7], w[8], w[9], w[10] = r.Range(1, 3), r.Range(0, 2), r.Range(4, 14), r.Range(1, 3)
 		n = r.Range(15, 70)
 	}
+	if withWorkers && r.Chance(0.4) {
+		w[12] = 1 // late snapshot requests for roots that were pruned meanwhile
+	}
+	if faulty && r.Chance(0.6) {
+		// node-level recurrence next to faults: a hash in the pending old hashes of one root is re-created by a later root
+		// whose waiting-list entry was spilled to the persister (tiny cache) and cannot be read
+		nodeRecur = true
+		p.Knobs["ewl"] = int64(r.Range(1, 3))
+	}
+	dirtyRollbacks := prop == "C09" && r.Chance(0.3)
 	for i := 0; i < n; i++ {
 		st := simkit.Step{Op: ops[r.Weighted(w)]}
 		switch st.Op {
 		case "block", "abort":
 			st.I = genMutations(r, nAcc, recurring)
-		case "snapshot", "checkpoint", "release":
+		case "snapshot", "checkpoint", "release", "stalesnapshot":
 			st.I = []int64{int64(r.Intn(1000))}
+		case "rollback":
+			if dirtyRollbacks && r.Chance(0.6) {
+				// the head is rolled back while the next block is being executed: its changes are neither committed nor reverted
+				d := simkit.Step{Op: "dirty", I: genMutations(r, nAcc, recurring)}
+				if r.Chance(0.6) {
+					d.I[0], d.I[1] = int64(r.Intn(nAcc)), mRemove
+				}
+				p.Steps = append(p.Steps, d)
+			}
 		}
 		if faulty && (st.Op == "finalize" || st.Op == "rollback") && r.Chance(0.25) {
 			st.Fault = []string{"get_error", "remove_error", "ewl_get_error"}[r.Intn(3)]
